@@ -25,9 +25,11 @@ EXTENDS Integers, Sequences, FiniteSets, TLC, Json
 CONSTANTS Ops, Defs, UserFiles, MaxHist
 
 Cmds    == {"server", "client", "model", "operation", "support"}
-OptSets == {"default", "regen_configure", "skip_models", "skip_operations", "skip_support", "exclude_main", "impl_package"}
+\* custom_layout: the layout file documented in docs/reference/templates/template_layout.md (-C), in which
+\* the generated-once file is declared by `skip_exists: true`, with the documented name -A TodoList
+OptSets == {"default", "regen_configure", "skip_models", "skip_operations", "skip_support", "exclude_main", "impl_package", "custom_layout"}
 OptsOf(cmd) == IF cmd = "server" THEN OptSets
-               ELSE IF cmd = "support" THEN {"default", "regen_configure"} ELSE {"default"}
+               ELSE {"default"}      \* `generate support` has no --regenerate-configureapi: it never rewrites an existing configure file
 
 P(k, n) == [k |-> k, n |-> n]
 Paths == {P("model", d) : d \in Defs} \cup {P("sop", o) : o \in Ops} \cup {P("cop", o) : o \in Ops}
